@@ -25,6 +25,35 @@ type Violation struct {
 	Case  json.RawMessage `json:"case"` // literal case input
 	Count int64           `json:"count"`
 	Shard int             `json:"shard,omitempty"` // worker shard that raised it (set by the parent)
+	Env   map[string]int  `json:"env,omitempty"`   // environment answers in force (seams with a non-default choice)
+}
+
+// EnvSeam is a source of nondeterminism put behind a choice the harness makes (map iteration order, …). Answer 0 is
+// the default; the worker repeats its exploration under every other answer if — and only if — a choice point of the
+// seam was reached.
+type EnvSeam struct {
+	Name         string
+	Set          func(answer int)
+	Reached      func() int64
+	Alternatives func() int
+}
+
+var EnvSeams []*EnvSeam
+
+// ApplyEnv sets the recorded answers (a replay) and returns a function restoring the defaults.
+func ApplyEnv(env map[string]int) func() {
+	for _, s := range EnvSeams {
+		if v, ok := env[s.Name]; ok {
+			s.Set(v)
+		}
+	}
+	return func() {
+		for _, s := range EnvSeams {
+			if _, ok := env[s.Name]; ok {
+				s.Set(0)
+			}
+		}
+	}
 }
 
 type curCase struct {
@@ -44,6 +73,7 @@ type Ctx struct {
 	Skip      map[int64]bool  // granular case indices to skip (culprits of an earlier hang / heap blow-up of this shard)
 	SkipEntry map[string]bool // entry points whose cases are skipped wholesale (they hung or crashed the worker repeatedly)
 	Replay    bool
+	Env       map[string]int // non-default environment answers in force
 
 	Counters map[string]int64
 	Sets     map[string]map[string]struct{}
@@ -263,8 +293,16 @@ func (c *Ctx) failWith(key, what, kind string, in any, idx int64) {
 	if len(what) > 600 {
 		what = what[:600] + "…"
 	}
+	var env map[string]int
+	if len(c.Env) > 0 {
+		env = map[string]int{}
+		for k, v := range c.Env {
+			env[k] = v
+			what += fmt.Sprintf(" [%s: alternative %d]", k, v)
+		}
+	}
 	c.Viols[key] = &Violation{
-		Key: key, What: what, Kind: kind, Case: raw, Count: 1,
+		Key: key, What: what, Kind: kind, Case: raw, Count: 1, Env: env,
 		Order: fmt.Sprintf("%04d:%012d", c.Shard, idx),
 	}
 }
